@@ -92,6 +92,17 @@ func (fm *Frame) InputChan() chan any {
 	return fm.ports[0].Chan
 }
 
+// inputValues returns the channel from which the values of the input can be
+// received. It is like InputChan, except that a port closed with <&-, which
+// has no channel, has no values: receiving from its nil channel would block
+// forever.
+func (fm *Frame) inputValues() <-chan any {
+	if ch := fm.ports[0].Chan; ch != nil {
+		return ch
+	}
+	return ClosedChan
+}
+
 // InputFile returns a file from which input can be read.
 func (fm *Frame) InputFile() *os.File {
 	return fm.ports[0].File
@@ -141,7 +152,7 @@ func (fm *Frame) IterateInputs(f func(any)) {
 	}()
 	go func() {
 		verifTraceC18("take-begin", fm.ports[0].Chan)
-		for v := range fm.ports[0].Chan {
+		for v := range fm.inputValues() {
 			verifTraceC18("take-end", fm.ports[0].Chan, v)
 			inputs <- v
 			verifTraceC18("take-begin", fm.ports[0].Chan)
